@@ -61,6 +61,8 @@ class ExportConfigFortran(ExportConfig):
             name = self._rename(name)
             value, shape = self._parse_value(param, param.value)
             dtype = self._parse_dtype(param, value)
+            if shape is not None and isinstance(param, StringType):
+                value = f"{dtype} :: {value}"   # the strings of an array constructor may differ in length
             if shape is None:
                 lines.append(f"  {dtype}, parameter :: {name} = {value};")
             else:
